@@ -21,6 +21,7 @@ import (
 	"sync"
 	"testing"
 	"time"
+	_ "time/tzdata"
 
 	"pgregory.net/rapid"
 )
@@ -82,6 +83,21 @@ func Share(n int) int {
 	return k
 }
 
+// Zones are the process time zones the shards run under.
+var Zones = []string{"UTC", "Asia/Shanghai", "America/New_York", "Australia/Lord_Howe", "Europe/London", "America/Sao_Paulo"}
+
+// Zone is the zone in force.
+var Zone = "UTC"
+
+// SetZone makes Zones[i mod n] the process's local zone (time.Local); an unknown zone leaves UTC in force.
+func SetZone(i int) {
+	name := Zones[((i%len(Zones))+len(Zones))%len(Zones)]
+	if loc, err := time.LoadLocation(name); err == nil {
+		time.Local = loc
+		Zone = name
+	}
+}
+
 // Main is called from TestMain of every check package.
 func Main(m *testing.M, id string) {
 	PropertyID = id
@@ -99,6 +115,9 @@ func Main(m *testing.M, id string) {
 	loadKnown(os.Getenv("VERIF_KNOWN"))
 	flag.Parse()
 	_ = flag.Set("rapid.nofailfile", "true")
+	// the process's local time zone is an input nobody passes explicitly: the shards run under different zones
+	// (with and without daylight saving, a half-hour one); a result may not depend on it
+	SetZone(Shard)
 	if rp := os.Getenv("VERIF_REPLAY"); rp != "" {
 		os.Exit(replay(rp))
 	}
@@ -174,19 +193,19 @@ type violation struct {
 }
 
 type sub struct {
-	Name       string           `json:"name"`
-	Evals      int64            `json:"evaluations"`
-	NTCount    int64            `json:"distinct_nontrivial"`
-	Classes    map[string]int64 `json:"classes"`
-	Required   []string         `json:"required_classes,omitempty"`
+	Name       string            `json:"name"`
+	Evals      int64             `json:"evaluations"`
+	NTCount    int64             `json:"distinct_nontrivial"`
+	Classes    map[string]int64  `json:"classes"`
+	Required   []string          `json:"required_classes,omitempty"`
 	Samples    []json.RawMessage `json:"samples"`
-	Known      map[string]int64 `json:"known_excluded,omitempty"`
+	Known      map[string]int64  `json:"known_excluded,omitempty"`
 	KnownDesc  map[string]string `json:"known_desc,omitempty"`
-	Violations []violation      `json:"violations,omitempty"`
-	NViol      int64            `json:"n_violations"`
-	Exhaustive string           `json:"exhaustive_domain,omitempty"`
-	Disjoint   bool             `json:"disjoint"`
-	Rule       string           `json:"rule"`
+	Violations []violation       `json:"violations,omitempty"`
+	NViol      int64             `json:"n_violations"`
+	Exhaustive string            `json:"exhaustive_domain,omitempty"`
+	Disjoint   bool              `json:"disjoint"`
+	Rule       string            `json:"rule"`
 	nt         map[uint64]struct{}
 	ntSampled  int
 }
@@ -282,6 +301,9 @@ func (p *P[C]) Failed() bool {
 
 func (p *P[C]) eval(c C, via string) error {
 	err := p.call(c)
+	if err != nil && Zone != "UTC" {
+		err = fmt.Errorf("%v [process time zone %s]", err, Zone)
+	}
 	var labels []string
 	ntv := false
 	if p.Class != nil {
@@ -515,9 +537,12 @@ func replay(path string) int {
 		fmt.Printf("replay: unknown sub-property %q in %s\n", rf.Prop, PropertyID)
 		return 2
 	}
-	if err := f(rf.Case); err != nil {
-		fmt.Printf("REPLAY-FAIL property=%s prop=%s case=%s\n  %v\n", PropertyID, rf.Prop, string(rf.Case), err)
-		return 1
+	for z := range Zones { // a replay does not know the shard the case came from: every zone is tried
+		SetZone(z)
+		if err := f(rf.Case); err != nil {
+			fmt.Printf("REPLAY-FAIL property=%s prop=%s zone=%s case=%s\n  %v\n", PropertyID, rf.Prop, Zones[z], string(rf.Case), err)
+			return 1
+		}
 	}
 	fmt.Printf("REPLAY-PASS property=%s prop=%s\n", PropertyID, rf.Prop)
 	return 0
